@@ -256,8 +256,8 @@ def run(ctx):
     # ---- model vs implementation inside Coq, on the numerically stable cases
     stab = [L.stability(c, x0_unscaled=flag) for c in cases]
     stable = [i for i, (c, o, st) in enumerate(zip(cases, obs, stab))
-              if o.get("ok") and st["same_steps"] and st["dev_x"] <= 1e-12 and st["dev_r"] <= 1e-10 and st["min_margin"] >= 1e-5]
-    margin_ties = sum(1 for o, st in zip(obs, stab) if o.get("ok") and st["same_steps"] and st["dev_x"] <= 1e-12 and st["dev_r"] <= 1e-10 and st["min_margin"] < 1e-5)
+              if o.get("ok") and st["same_steps"] and st["dev_x"] <= 3e-13 and st["dev_r"] <= 3e-11 and st["min_margin"] >= 1e-5]
+    margin_ties = sum(1 for o, st in zip(obs, stab) if o.get("ok") and st["same_steps"] and st["dev_x"] <= 3e-13 and st["dev_r"] <= 3e-11 and st["min_margin"] < 1e-5)
     items = [(cases[i], obs[i]) for i in stable]
     mism = []
     short = [j for j, i in enumerate(stable) if cases[i]["stream"] != "long_iterates"]
@@ -337,7 +337,7 @@ def run(ctx):
             d = np.max(np.abs(o2["x"] - alpha * o1["x"]), axis=0)
             scl = np.max(np.abs(alpha * o1["x"]), axis=0)
             okc = bool(np.all(d == 0)) if exact else bool(np.all(d <= 1e-9 * scl))
-        stable_h = st["same_steps"] and st["dev_x"] <= 1e-12 and st["dev_r"] <= 1e-10 and st["min_margin"] >= 1e-5
+        stable_h = st["same_steps"] and st["dev_x"] <= 3e-13 and st["dev_r"] <= 3e-11 and st["min_margin"] >= 1e-5
         if not okc and (exact or stable_h):
             mism.append(dict(oracle_fail=True, case=describe(c2, o2), failed_clauses=["cg(alpha*b) != alpha*cg(b) for alpha=%r (x0=0)" % (alpha,)], model_disagrees=False))
         # same call through inv(A, CG(...)) @ b
@@ -361,10 +361,12 @@ def run(ctx):
         n = int(rs.integers(1, 9))
         dt = [np.float32, np.complex64][int(rs.integers(0, 2))]
         cplx = dt is np.complex64
-        A = (L.make_spd(rs, n, cplx, float(10 ** rs.uniform(0, 1.5)), "uniform") * (10.0 ** rs.uniform(-12, 12) if rs.random() < 0.5 else 1.0)).astype(dt)
+        scale32 = 10.0 ** rs.uniform(-12, 12) if rs.random() < 0.5 else 1.0
+        A = (L.make_spd(rs, n, cplx, float(10 ** rs.uniform(0, 1.5)), "uniform") * scale32).astype(dt)
         nc = int(rs.integers(1, 4))
         B = (rs.normal(size=(n, nc)) + (1j * rs.normal(size=(n, nc)) if cplx else 0)).astype(dt)
-        X0 = None if rs.random() < 0.5 else (rs.normal(size=(n, nc)) + (1j * rs.normal(size=(n, nc)) if cplx else 0)).astype(dt)
+        # a guess of ordinary size next to an operator of scale 1e12 makes ||r0||^2 * ||A|| leave the single-precision range
+        X0 = None if (rs.random() < 0.5 or not 1e-3 <= scale32 <= 1e3) else (rs.normal(size=(n, nc)) + (1j * rs.normal(size=(n, nc)) if cplx else 0)).astype(dt)
         zc = -1
         if not div_small and rs.random() < 0.5:
             zc = int(rs.integers(0, nc))
